@@ -1,4 +1,5 @@
 import Proofs.SchedClock
+import Proofs.SchedFresh
 import Props.C03
 /-!
 # C04 — re-running a job re-executes exactly the tasks whose results are out of date
@@ -82,6 +83,74 @@ theorem EnvCons_sub {c : Cfg} {e e' : Env} (h : EnvCons c e) (hsub : ∀ t, e'.e
 theorem rerun_envcons {c : Cfg} (hc : c.WF) (hw : 0 < c.workers) (env : Env) (clk : Nat) (he : EnvOK env)
     (hk : ClockOK env clk) {s : State} (hr : Reach c (init c env [] 0 clk) s) (hret : s.mpc = .returned) :
     EnvCons c s.env := fun t x ht hx hxd => rerun_consistent hc hw env clk he hk hr hret t ht x hx hxd
+
+/-! ### second sentence: what is up to date is not executed again -/
+
+theorem InvF_init {c : Cfg} (env0 : Env) (D : Nat → Prop) (q : List (Option Nat)) (u clk : Nat) (hq : QueueOK q) :
+    InvF env0 D (init c env0 q u clk) := by
+  have hnp : ∀ t, (init c env0 q u clk).mpc ≠ .put t := by
+    intro t; simp only [init]; split <;> (try split) <;> (try split) <;> simp
+  have hqm : ∀ t, some t ∉ q := by
+    intro t ht
+    have : t ∈ q.filterMap id := List.mem_filterMap.2 ⟨some t, ht, rfl⟩
+    rw [hq] at this; simp at this
+  intro d _
+  refine ⟨rfl, rfl, ?_, by simp [init]⟩
+  rintro (ht | ht | ⟨w, hw⟩)
+  · exact hqm d ht
+  · exact hnp d ht
+  · simp [init, held] at hw
+
+/-- **C04, second sentence.**  Let `D` be a set of tasks, closed under dependencies, that the carried-over environment
+records as DONE, each one started after the end of all its dependencies (`FreshSet`: "a task that was DONE and whose
+transitive dependencies were all DONE", up to date).  Then **in every state of every execution** — every interleaving,
+worker count, outcome of the other tasks — no task of `D` has been executed and the recorded results of every task of `D`
+are exactly those carried over. -/
+theorem fresh_not_rerun {c : Cfg} (hc : c.WF) (env0 : Env) (clk : Nat) (he : EnvOK env0) (D : Nat → Prop)
+    (hD : FreshSet c env0 D) {s : State} (hr : Reach c (init c env0 [] 0 clk) s) (d : Nat) (hd : D d) :
+    s.execCount d = 0 ∧ s.env.entry d = env0.entry d := by
+  have key : InvA c s ∧ InvF env0 D s := by
+    induction hr with
+    | init => exact ⟨InvA_init env0 [] 0 clk he rfl, InvF_init env0 D [] 0 clk rfl⟩
+    | step _ hs ih => exact ⟨InvA_step hc ih.1 hs, InvF_step hc hD ih.1 ih.2 hs⟩
+  exact ⟨(key.2 d hd).2.1, (key.2 d hd).1⟩
+
+/-- in a history of runs the hypothesis comes for free: an environment inherited from a run of the scheduler (`EnvCons`,
+established by `rerun_envcons` and kept by `EnvCons_sub`) makes every dependency-closed set of DONE tasks a fresh set -/
+theorem freshSet_of_envcons {c : Cfg} (env0 : Env) (he : EnvOK env0) (hcons : EnvCons c env0) (D : Nat → Prop)
+    (hclosed : ∀ d, D d → ∀ d' ∈ c.depsOf d, D d') (hlt : ∀ d, D d → d < c.n)
+    (hdone : ∀ d, D d → ∃ x, env0.entry d = some x ∧ x.st = .done) : FreshSet c env0 D := by
+  refine ⟨hclosed, hlt, ?_⟩
+  intro d hDd
+  obtain ⟨x, hx, hxd⟩ := hdone d hDd
+  obtain ⟨_, hs, _⟩ := he d x hx hxd
+  cases hsv : x.startC with
+  | none => rw [hsv] at hs; cases hs
+  | some sv =>
+    refine ⟨x, sv, hx, hxd, hsv, ?_⟩
+    intro d' hd'
+    obtain ⟨y, hy, hyd⟩ := hdone d' (hclosed d hDd d' hd')
+    obtain ⟨ev, sv', h1, h2, h3⟩ := (hcons d x (hlt d hDd) hx hxd).1 d' hd' y hy hyd
+    rw [hsv] at h2; injection h2 with h2; subst h2
+    exact ⟨y, ev, hy, h1, h3⟩
+
+/-- non-vacuity: a chain 0 <- 1 carried over DONE and up to date is a fresh set -/
+example : FreshSet ⟨2, [[], [0]], [[], [0]], [.done, .done], 1, false⟩
+    ⟨fun t => if t = 0 then some ⟨.done, some 1, some 1, some 2⟩ else if t = 1 then some ⟨.done, some 1, some 3, some 4⟩ else none⟩
+    (fun d => d < 2) := by
+  refine ⟨?_, fun d h => h, ?_⟩
+  · intro d hd d' hd'
+    have : d = 0 ∨ d = 1 := by omega
+    rcases this with e | e <;> subst e <;> simp [Cfg.depsOf] at hd' <;> omega
+  · intro d hd
+    have : d = 0 ∨ d = 1 := by omega
+    rcases this with e | e <;> subst e
+    · exact ⟨_, 1, rfl, rfl, rfl, by intro d' hd'; simp [Cfg.depsOf] at hd'⟩
+    · refine ⟨_, 3, rfl, rfl, rfl, ?_⟩
+      intro d' hd'
+      simp [Cfg.depsOf] at hd'
+      subst hd'
+      exact ⟨_, 2, rfl, rfl, by omega⟩
 
 /-- non-vacuity: a stale DONE entry (dependency ended at 9, task started at 5) satisfies the hypotheses -/
 example : EnvOK ⟨fun t => if t = 0 then some ⟨.done, some 1, some 8, some 9⟩ else if t = 1 then some ⟨.done, some 1, some 5, some 6⟩ else none⟩
